@@ -34,7 +34,7 @@ impl Prop for C09 {
         "model_checking"
     }
     fn rule(&self, _t: Tier) -> String {
-        "every string over the 21-symbol relation character-class alphabet up to the length bound, and every sequence of 20 multi-character relation tokens up to the token bound (full input tries; states = strings); each is parsed by parse_relaxed(_, false), parse_relaxed(_, true), Relations::from_str, Entry::from_str and Relation::from_str; non-trivial = distinct string of the character space with >= 2 characters".into()
+        "every string over the 21-symbol relation character-class alphabet up to the length bound, and every sequence of 20 multi-character relation tokens up to the token bound (full input tries; states = strings); each is parsed by parse_relaxed(_, false), parse_relaxed(_, true), Relations::from_str, Entry::from_str and Relation::from_str; every ordered pair of the three field readers is also run back to back on the same text and compared with the answers obtained in isolation (history independence); non-trivial = distinct string of the character space with >= 2 characters".into()
     }
     fn bounds(&self, t: Tier) -> Value {
         json!({"spaces": rel_space(t).describe()})
@@ -127,6 +127,58 @@ impl Prop for C09 {
                 let clause = if is_budget(&p) { "hang" } else { "panic" };
                 out.push(viol(clause, format!("strict readers: {}", panic_detail(&p))));
             }
+        }
+        // a reader's answer does not depend on what was read before it (same text under the other setting, the strict reader
+        // before or after the tolerant one): compare every consecutive pair with the answers obtained in isolation
+        // (all strings of up to four symbols, and every longer one that holds a '$': the settings differ on substvars only)
+        let history = s.chars().count() <= 4 || s.contains('$');
+        let r = guard(budget_for(s.len()) * 12, || {
+            let mut out: Vec<Viol> = vec![];
+            if !history {
+                return out;
+            }
+            let flush = || {
+                let _ = Relations::parse_relaxed("flush-a", false);
+                let _ = Relations::parse_relaxed("flush-b", true);
+            };
+            let relaxed = |allow: bool| -> (String, Vec<String>) {
+                let (r, e) = Relations::parse_relaxed(s, allow);
+                (r.to_string(), e)
+            };
+            let strict = || Relations::from_str(s).map(|r| r.to_string()).map_err(|_| ());
+            flush();
+            let iso_false = relaxed(false);
+            flush();
+            let iso_true = relaxed(true);
+            flush();
+            let iso_strict = strict();
+            for first in 0..3 {
+                for second in 0..3 {
+                    if first == second {
+                        continue;
+                    }
+                    flush();
+                    match first {
+                        0 => drop(relaxed(false)),
+                        1 => drop(relaxed(true)),
+                        _ => drop(strict()),
+                    }
+                    let same = match second {
+                        0 => relaxed(false) == iso_false,
+                        1 => relaxed(true) == iso_true,
+                        _ => strict() == iso_strict,
+                    };
+                    if !same {
+                        let names = ["parse_relaxed(_, false)", "parse_relaxed(_, true)", "Relations::from_str"];
+                        out.push(viol("history-independent", format!("{} answers differently directly after {} on the same text than in isolation", names[second], names[first])));
+                    }
+                }
+            }
+            out
+        });
+        match r {
+            Ok(vs) => out.extend(vs),
+            Err(p) => out.push(viol(if is_budget(&p) { "hang" } else { "panic" }, format!("history clause: {}", panic_detail(&p)))),
         }
         if c.fresh && s.chars().count() >= 2 {
             st.nontrivial += 1;
